@@ -660,6 +660,18 @@ def g_transpose(ctx, rng, i):
     t.copy()
     a = _rand_tensor(rng, 1 + i % 7)
     a.copy()
+    # the transposed tensor of every kind of library object (the T attribute and the method must agree and be judged by the monitor)
+    for form in ("T", "transpose"):
+        try:
+            r = a.T if form == "T" else a.transpose()
+        except Exception as e:
+            ctx.judge("transpose", False, [a], what=f"{type(a).__name__}.{form} raised {type(e).__name__}: {e}", op="transpose", feat={"cls": type(a).__name__, "form": form})
+            continue
+        f_ = a.free_indices
+        want = a.array.transpose(list(range(f_)) + list(reversed(range(f_, a.rank))))
+        ok = isinstance(r, Tensor) and r.array.shape == want.shape and np.array_equal(r.array, want, equal_nan=True)
+        ctx.judge("transpose", bool(ok), [a], what=f"{type(a).__name__}.{form} is {type(r).__name__} {str(r)[:40]!r}, not the transposed tensor", op="transpose",
+                  feat={"cls": type(a).__name__, "form": form}, nontrivial=a.rank - f_ > 1)
     if a.free_indices > 0:
         for ax in range(-a.rank - 1, a.free_indices + 1):
             try:
